@@ -40,23 +40,18 @@ impl Axecutor {
         debug_assert_eq!(i.code(), Shl_rm8_imm8);
 
         calculate_rm_imm![u8f; self; i; |d: u8, s: u8| {
-            assert_ne!(s, 1, "SHL r/m8, imm8 with immediate 1 should be handled by opcode SHL r/m8, 1");
-
-            if s == 0 {
+            // The count is masked to 5 bits; a masked count of 0 changes neither the operand nor the flags
+            let count = (s & 0x1f) as u32;
+            if count == 0 {
                 return (d, FLAGS_UNAFFECTED);
             }
-
-            match d.checked_shl((s&0x1f) as u32) {
-                Some(v) => {
-                    let cf = if d & (0x80 >> ((s-1) & 0x1f)) == 0 {0} else {FLAG_CF};
-
-                    (v, cf)
-                },
-                None => {
-                    // Overflow flag is only defined for shifts of 1, which are handled by another opcode
-                    (0, if s == 8 && d & 1 == 1 {FLAG_CF} else {0})}
-            }
-        }; (set: FLAG_PF | FLAG_ZF | FLAG_SF; clear: FLAG_CF)]
+            let result = d.checked_shl(count).unwrap_or(0);
+            // CF is the last bit shifted out
+            let cf = if count <= 8 && d.checked_shr(8 - count).unwrap_or(0) & 1 != 0 { FLAG_CF } else { 0 };
+            // OF (only defined for 1-bit shifts) is MSB(result) XOR CF
+            let of = if (result & 0x80 != 0) != (cf != 0) { FLAG_OF } else { 0 };
+            (result, cf | of)
+        }; (set: FLAG_PF | FLAG_ZF | FLAG_SF; clear: FLAG_CF | FLAG_OF)]
     }
 
     /// SHL r/m16, imm8
@@ -66,23 +61,18 @@ impl Axecutor {
         debug_assert_eq!(i.code(), Shl_rm16_imm8);
 
         calculate_rm_imm![u16f; u8; self; i; |d: u16, s: u8| {
-            assert_ne!(s, 1, "SHL r/m16, imm8 with immediate 1 should be handled by opcode SHL r/m16, 1");
-
-            if (s&0x1f) == 0 {
+            // The count is masked to 5 bits; a masked count of 0 changes neither the operand nor the flags
+            let count = (s & 0x1f) as u32;
+            if count == 0 {
                 return (d, FLAGS_UNAFFECTED);
             }
-
-            match d.checked_shl((s&0x1f) as u32) {
-                Some(v) => {
-                    let cf = if d & (0x8000 >> ((s-1) & 0x1f)) == 0 {0} else {FLAG_CF};
-
-                    (v, cf)
-                },
-                None => {
-                    // Overflow flag is only defined for shifts of 1, which are handled by another opcode
-                    (0, if s == 16 && d & 1 == 1 {FLAG_CF} else {0})}
-            }
-        }; (set: FLAG_PF | FLAG_ZF | FLAG_SF; clear: FLAG_CF)]
+            let result = d.checked_shl(count).unwrap_or(0);
+            // CF is the last bit shifted out
+            let cf = if count <= 16 && d.checked_shr(16 - count).unwrap_or(0) & 1 != 0 { FLAG_CF } else { 0 };
+            // OF (only defined for 1-bit shifts) is MSB(result) XOR CF
+            let of = if (result & 0x8000 != 0) != (cf != 0) { FLAG_OF } else { 0 };
+            (result, cf | of)
+        }; (set: FLAG_PF | FLAG_ZF | FLAG_SF; clear: FLAG_CF | FLAG_OF)]
     }
 
     /// SHL r/m32, imm8
@@ -92,22 +82,18 @@ impl Axecutor {
         debug_assert_eq!(i.code(), Shl_rm32_imm8);
 
         calculate_rm_imm![u32f; u8; self; i; |d: u32, s: u8| {
-            assert_ne!(s, 1, "SHL r/m32, imm8 with immediate 1 should be handled by opcode SHL r/m32, 1");
-
-            if (s&0x1f) == 0 {
+            // The count is masked to 5 bits; a masked count of 0 changes neither the operand nor the flags
+            let count = (s & 0x1f) as u32;
+            if count == 0 {
                 return (d, FLAGS_UNAFFECTED);
             }
-
-            match d.checked_shl((s&0x1f) as u32) {
-                Some(v) => (
-                    v,
-                    if d & (0x80000000u32.wrapping_shr(((s-1) & 0x1f) as u32)) == 0 {0} else {FLAG_CF}
-                ),
-                None => {
-                    panic!("u8 s & 0x1f should never be >=32");
-                }
-            }
-        }; (set: FLAG_PF | FLAG_ZF | FLAG_SF; clear: FLAG_CF)]
+            let result = d.checked_shl(count).unwrap_or(0);
+            // CF is the last bit shifted out
+            let cf = if count <= 32 && d.checked_shr(32 - count).unwrap_or(0) & 1 != 0 { FLAG_CF } else { 0 };
+            // OF (only defined for 1-bit shifts) is MSB(result) XOR CF
+            let of = if (result & 0x8000_0000 != 0) != (cf != 0) { FLAG_OF } else { 0 };
+            (result, cf | of)
+        }; (set: FLAG_PF | FLAG_ZF | FLAG_SF; clear: FLAG_CF | FLAG_OF)]
     }
 
     /// SHL r/m64, imm8
@@ -117,22 +103,18 @@ impl Axecutor {
         debug_assert_eq!(i.code(), Shl_rm64_imm8);
 
         calculate_rm_imm![u64f; u8; self; i; |d: u64, s: u8| {
-            assert_ne!(s, 1, "SHL r/m64, imm8 with immediate 1 should be handled by opcode SHL r/m64, 1");
-
-            if s&0x3f == 0 {
+            // The count is masked to 6 bits; a masked count of 0 changes neither the operand nor the flags
+            let count = (s & 0x3f) as u32;
+            if count == 0 {
                 return (d, FLAGS_UNAFFECTED);
             }
-
-            match d.checked_shl((s&0x3f) as u32) {
-                Some(v) => (
-                    v,
-                    if d & (0x8000000000000000u64.wrapping_shr(((s-1) & 0x3f) as u32)) == 0 {0} else {FLAG_CF}
-                ),
-                None => {
-                    panic!("u64 s & 0x1f should never be >=64");
-                }
-            }
-        }; (set: FLAG_PF | FLAG_ZF | FLAG_SF; clear: FLAG_CF)]
+            let result = d.checked_shl(count).unwrap_or(0);
+            // CF is the last bit shifted out
+            let cf = if count <= 64 && d.checked_shr(64 - count).unwrap_or(0) & 1 != 0 { FLAG_CF } else { 0 };
+            // OF (only defined for 1-bit shifts) is MSB(result) XOR CF
+            let of = if (result & 0x8000_0000_0000_0000 != 0) != (cf != 0) { FLAG_OF } else { 0 };
+            (result, cf | of)
+        }; (set: FLAG_PF | FLAG_ZF | FLAG_SF; clear: FLAG_CF | FLAG_OF)]
     }
 
     /// SHL r/m8, 1
@@ -210,20 +192,17 @@ impl Axecutor {
         debug_assert_eq!(i.code(), Shl_rm8_CL);
 
         calculate_rm_r![u8f; self; i; |d: u8, s: u8| {
-            if s&0x1f == 0 {
+            // The count is masked to 5 bits; a masked count of 0 changes neither the operand nor the flags
+            let count = (s & 0x1f) as u32;
+            if count == 0 {
                 return (d, FLAGS_UNAFFECTED);
             }
-
-            match d.checked_shl((s&0x1f) as u32) {
-                Some(v) => (
-                    v,
-                    if d & (0x80u8.wrapping_shr(((s-1) & 0x1f) as u32)) == 0 {0} else {FLAG_CF} |
-                    if (d & 0x40 == 0) == (d & 0x80 == 0) {0} else {FLAG_OF}
-                ),
-                None => {
-                    (0, if s == 8 && d & 1 == 0 {0} else {FLAG_CF})
-                }
-            }
+            let result = d.checked_shl(count).unwrap_or(0);
+            // CF is the last bit shifted out
+            let cf = if count <= 8 && d.checked_shr(8 - count).unwrap_or(0) & 1 != 0 { FLAG_CF } else { 0 };
+            // OF (only defined for 1-bit shifts) is MSB(result) XOR CF
+            let of = if (result & 0x80 != 0) != (cf != 0) { FLAG_OF } else { 0 };
+            (result, cf | of)
         }; (set: FLAG_PF | FLAG_ZF | FLAG_SF; clear: FLAG_CF | FLAG_OF)]
     }
 
@@ -234,20 +213,17 @@ impl Axecutor {
         debug_assert_eq!(i.code(), Shl_rm16_CL);
 
         calculate_rm_r![u16f; u8; self; i; |d: u16, s: u8| {
-            if s&0x1f == 0 {
+            // The count is masked to 5 bits; a masked count of 0 changes neither the operand nor the flags
+            let count = (s & 0x1f) as u32;
+            if count == 0 {
                 return (d, FLAGS_UNAFFECTED);
             }
-
-            match d.checked_shl((s&0x1f) as u32) {
-                Some(v) => (
-                    v,
-                    if d & (0x8000u16.wrapping_shr(((s-1) & 0x1f) as u32)) == 0 {0} else {FLAG_CF} |
-                    if (d & 0x4000 == 0) == (d & 0x8000 == 0) {0} else {FLAG_OF}
-                ),
-                None => {
-                    (0, if s == 16 && d & 1 == 0 {0} else {FLAG_CF})
-                }
-            }
+            let result = d.checked_shl(count).unwrap_or(0);
+            // CF is the last bit shifted out
+            let cf = if count <= 16 && d.checked_shr(16 - count).unwrap_or(0) & 1 != 0 { FLAG_CF } else { 0 };
+            // OF (only defined for 1-bit shifts) is MSB(result) XOR CF
+            let of = if (result & 0x8000 != 0) != (cf != 0) { FLAG_OF } else { 0 };
+            (result, cf | of)
         }; (set: FLAG_PF | FLAG_ZF | FLAG_SF; clear: FLAG_CF | FLAG_OF)]
     }
 
@@ -258,20 +234,17 @@ impl Axecutor {
         debug_assert_eq!(i.code(), Shl_rm32_CL);
 
         calculate_rm_r![u32f; u8; self; i; |d: u32, s: u8| {
-            if s&0x1f == 0 {
+            // The count is masked to 5 bits; a masked count of 0 changes neither the operand nor the flags
+            let count = (s & 0x1f) as u32;
+            if count == 0 {
                 return (d, FLAGS_UNAFFECTED);
             }
-
-            match d.checked_shl((s&0x1f) as u32) {
-                Some(v) => (
-                    v,
-                    if d & (0x80000000u32.wrapping_shr(((s-1) & 0x1f) as u32)) == 0 {0} else {FLAG_CF} |
-                    if (d & 0x40000000 == 0) == (d & 0x80000000 == 0) {0} else {FLAG_OF}
-                ),
-                None => {
-                    panic!("u8 s & 0x1f should never be >=32");
-                }
-            }
+            let result = d.checked_shl(count).unwrap_or(0);
+            // CF is the last bit shifted out
+            let cf = if count <= 32 && d.checked_shr(32 - count).unwrap_or(0) & 1 != 0 { FLAG_CF } else { 0 };
+            // OF (only defined for 1-bit shifts) is MSB(result) XOR CF
+            let of = if (result & 0x8000_0000 != 0) != (cf != 0) { FLAG_OF } else { 0 };
+            (result, cf | of)
         }; (set: FLAG_PF | FLAG_ZF | FLAG_SF; clear: FLAG_CF | FLAG_OF)]
     }
 
@@ -282,20 +255,17 @@ impl Axecutor {
         debug_assert_eq!(i.code(), Shl_rm64_CL);
 
         calculate_rm_r![u64f; u8; self; i; |d: u64, s: u8| {
-            if s&0x3f == 0 {
+            // The count is masked to 6 bits; a masked count of 0 changes neither the operand nor the flags
+            let count = (s & 0x3f) as u32;
+            if count == 0 {
                 return (d, FLAGS_UNAFFECTED);
             }
-
-            match d.checked_shl((s&0x3f) as u32) {
-                Some(v) => (
-                    v,
-                    if d & (0x8000000000000000u64.wrapping_shr(((s-1) & 0x3f) as u32)) == 0 {0} else {FLAG_CF} |
-                    if (d & 0x8000000000000000) == ((d & 0x4000000000000000)<<1) {0} else {FLAG_OF}
-                ),
-                None => {
-                    panic!("u8 s & 0x3f should never be >=64");
-                }
-            }
+            let result = d.checked_shl(count).unwrap_or(0);
+            // CF is the last bit shifted out
+            let cf = if count <= 64 && d.checked_shr(64 - count).unwrap_or(0) & 1 != 0 { FLAG_CF } else { 0 };
+            // OF (only defined for 1-bit shifts) is MSB(result) XOR CF
+            let of = if (result & 0x8000_0000_0000_0000 != 0) != (cf != 0) { FLAG_OF } else { 0 };
+            (result, cf | of)
         }; (set: FLAG_PF | FLAG_ZF | FLAG_SF; clear: FLAG_CF | FLAG_OF)]
     }
 }
